@@ -238,8 +238,20 @@ func verifyFunction(P *Program, db *SpecDB, ti *TypeInfo, fn *ssa.Function, c *C
 		fr.vals[p] = v
 		fr.args = append(fr.args, v)
 	}
-	if len(fn.FreeVars) > 0 {
-		e.unsupportedf("function under contract has free variables")
+	// a closure under contract: each captured variable is a distinct, allocated cell with an arbitrary content
+	var fvRefs []string
+	for _, fv := range fn.FreeVars {
+		if !isPointer(fv.Type()) {
+			e.unsupportedf("closure under contract captures %s by value (unexpected SSA form)", fv.Name())
+			continue
+		}
+		v := e.freshVal(st, "fv!"+fv.Name(), fv.Type())
+		fr.vals[fv] = v
+		e.assert("(> " + v.L[0].T + " 0)")
+		for _, o := range fvRefs {
+			e.assert(not(eq(o, v.L[0].T)))
+		}
+		fvRefs = append(fvRefs, v.L[0].T)
 	}
 	// axioms
 	for _, ax := range db.Axioms {
